@@ -39,9 +39,10 @@ const (
 	ChThread ChoiceKind = iota // which thread runs next
 	ChMap                      // map iteration order
 	ChEnv                      // environment answer (short read, fault, pool miss ...)
+	ChSelect                   // which ready case of a select statement is taken
 )
 
-func (k ChoiceKind) String() string { return [...]string{"thread", "map", "env"}[k] }
+func (k ChoiceKind) String() string { return [...]string{"thread", "map", "env", "select"}[k] }
 
 // ChoicePoint is one recorded decision of an execution.
 type ChoicePoint struct {
@@ -107,6 +108,20 @@ type Exec struct {
 	QuietPool bool
 	now       int64 // virtual clock, milliseconds since VirtualEpoch
 	divergent string
+	// StepLog, when TraceSteps is set, records every scheduling point / block (debugging).
+	TraceSteps bool
+	StepLog    []string
+}
+
+// TraceAll makes every new execution record its step log (debugging aid).
+var TraceAll bool
+
+func (e *Exec) logStep(kind, site string) {
+	name := "main"
+	if e.cur != nil {
+		name = e.cur.Name
+	}
+	e.StepLog = append(e.StepLog, kind+" "+name+" "+site)
 }
 
 // VirtualEpochUnix is the wall-clock second at which every execution starts.
@@ -128,7 +143,7 @@ func Begin(prefix []int) *Exec {
 	if active {
 		panic("zzvrt: Begin while an execution is active")
 	}
-	e := &Exec{mainWake: make(chan struct{}, 1), prefix: prefix, Horizon: 2_000_000, exploring: true}
+	e := &Exec{mainWake: make(chan struct{}, 1), prefix: prefix, Horizon: 2_000_000, exploring: true, TraceSteps: TraceAll}
 	ex = e
 	active = true
 	return e
@@ -226,6 +241,9 @@ func Point(site string) {
 		return
 	}
 	e.steps++
+	if e.TraceSteps {
+		e.logStep("point", site)
+	}
 	if e.steps > e.Horizon {
 		e.HorizonHit = true
 		return
@@ -259,6 +277,9 @@ func Block(kind BlockKind, what string, pred func() bool) {
 	if pred() {
 		return
 	}
+	if e.TraceSteps {
+		e.logStep("block", what)
+	}
 	t.state, t.pred, t.kind, t.what = tsBlocked, pred, kind, what
 	e.yieldFrom(t)
 }
@@ -273,6 +294,13 @@ func (e *Exec) yieldFrom(t *Thread) {
 	} else {
 		c := e.choose(ChThread, len(others), false, "blocked")
 		next := others[c]
+		if e.TraceSteps {
+			names := ""
+			for _, o := range others {
+				names += o.Name + "(" + o.what + ") "
+			}
+			e.logStep("switch", fmt.Sprintf("choice %d of %s", c, names))
+		}
 		e.cur = next
 		if next.state == tsBlocked {
 			next.state = tsRunnable
